@@ -54,7 +54,10 @@ def seeded_table():
         rows.append("| %s | %s… | %s | %s |" % (name, what.replace("|", "/"), m.get("detection", "").replace("|", "/"), "; ".join(m.get("caught_by_checks", [])).replace("|", "/")))
     n = len(rows) - 2
     missed = sum(1 for d in glob.glob("seeded/*/meta.json") if "MISSED" in json.load(open(d)).get("detection", ""))
-    head = "%d seeded changes kept (every one confirmed here and now caught); %d of them were missed at their first evaluation and led to a stronger generator, oracle or run mode.\n\n" % (n, missed)
+    still = sum(1 for d in glob.glob("seeded/*/meta.json") if "still not caught" in json.load(open(d)).get("detection", ""))
+    head = ("%d seeded changes kept (every one confirmed here); %d of them were missed at their first evaluation; %d of those led to a stronger "
+            "generator, oracle or run mode and are caught now, %d %s still not caught (the reason is in its row and in section 17).\n\n"
+            % (n, missed, missed - still, still, "is" if still == 1 else "are"))
     return head + "\n".join(rows)
 
 
